@@ -32,6 +32,28 @@ BLOCK_EXC = {"Exception": Exception, "BaseException": BaseException, "StopIterat
              "RuntimeError": RuntimeError, "GeneratorExit": GeneratorExit, "KeyboardInterrupt": KeyboardInterrupt}
 
 
+# proper subclasses of the exception types the implementation singles out: classified by isinstance like
+# asynccontextmanager does, except GeneratorExit itself (compared with contextlib only, not with the model)
+class StopAsyncSub(StopAsyncIteration):
+    pass
+
+
+class StopIterSub(StopIteration):
+    pass
+
+
+class GenExitSub(GeneratorExit):
+    pass
+
+
+class RuntimeSub(RuntimeError):
+    pass
+
+
+SUB_BLOCKS = {"StopAsyncIterationSub": StopAsyncSub, "StopIterationSub": StopIterSub, "GeneratorExitSub": GenExitSub, "RuntimeErrorSub": RuntimeSub}
+BLOCK_EXC.update(SUB_BLOCKS)
+
+
 def make_gen(pre, handler, after, nested=False):
     async def gen():
         if pre == "raise":
@@ -192,7 +214,7 @@ def run(tier, seed):
     proofs_ok = proof_stage(rep, "C13")
     texts, fails = [], 0
     progs = list(itertools.product(PRE, HANDLER, AFTER))
-    for (pre, handler, after), block in itertools.product(progs, BLOCKS):
+    for (pre, handler, after), block in itertools.product(progs, BLOCKS + sorted(SUB_BLOCKS)):
         genf = make_gen(pre, handler, after)
         ids = Ids()
         value = None if block == "normal" else BLOCK_EXC[block]("block")
@@ -230,8 +252,8 @@ def run(tier, seed):
             fails += 1
             rep.violation("contextmanager:%s" % ("genexit" if block == "GeneratorExit" else "outcome"), {"program": [pre, handler, after], "block": block, "why": why})
             continue
-        if pre != "yield":
-            continue                      # the enter phase: compared with the oracle above
+        if pre != "yield" or block in SUB_BLOCKS:
+            continue                      # the enter phase / subclass outcomes: compared with the oracle above
         use_aclose = block == "GeneratorExit"
         resp = observe_response(genf, block, value, ids, use_aclose)
         if resp is None:
